@@ -65,17 +65,25 @@ def fresh_block_num(bundle):
     return num
 
 
-def ref_add_bib(bundle, target_nums, kid, alg, scope, addl_protected=b'', src=None, sec_flags=0, sec_crc=0, addl_unprotected=b''):
-    ''' Reference security source: append a BIB (COSE_Mac0 per target) in front of the payload block. '''
-    bundle = copy.deepcopy(bundle)
-    src = src or bundle['primary']['src']
-    params = [[5, dict(scope)]]
+def _params(scope, addl_protected, addl_unprotected):
+    ''' scope None = no AAD-scope parameter at all: the default scope {0:1,-1:1,-2:1} applies. '''
+    params = []
+    if scope is not None:
+        params.append([5, dict(scope)])
     if addl_protected:
         params.append([3, addl_protected])
     if addl_unprotected:
         params.append([4, addl_unprotected])
+    return params
+
+
+def ref_add_bib(bundle, target_nums, kid, alg, scope, addl_protected=b'', src=None, sec_flags=0, sec_crc=0, addl_unprotected=b''):
+    ''' Reference security source: append a BIB (COSE_Mac0 per target) in front of the payload block. '''
+    bundle = copy.deepcopy(bundle)
+    src = src or bundle['primary']['src']
+    params = _params(scope, addl_protected, addl_unprotected)
     sec_blk = dict(type=11, num=fresh_block_num(bundle), flags=sec_flags, crc_type=sec_crc, data='')
-    asb = {'targets': list(target_nums), 'ctx': 3, 'flags': 1, 'src': src, 'params': params, 'results': []}
+    asb = {'targets': list(target_nums), 'ctx': 3, 'flags': 1 if params else 0, 'src': src, 'params': params or None, 'results': []}
     for num in target_nums:
         target = next(b for b in bundle['blocks'] if b['num'] == num)
         aad = rc.external_aad(bundle, sec_blk, target, asb)
@@ -90,13 +98,9 @@ def ref_add_bcb(bundle, target_nums, kid, alg, scope, ivs, addl_protected=b'', s
     ''' Reference security source: encrypt the targets (COSE_Encrypt0) and append the BCB. '''
     bundle = copy.deepcopy(bundle)
     src = src or bundle['primary']['src']
-    params = [[5, dict(scope)]]
-    if addl_protected:
-        params.append([3, addl_protected])
-    if addl_unprotected:
-        params.append([4, addl_unprotected])
+    params = _params(scope, addl_protected, addl_unprotected)
     sec_blk = dict(type=12, num=fresh_block_num(bundle), flags=1, crc_type=0, data='')
-    asb = {'targets': list(target_nums), 'ctx': 3, 'flags': 1, 'src': src, 'params': params, 'results': []}
+    asb = {'targets': list(target_nums), 'ctx': 3, 'flags': 1 if params else 0, 'src': src, 'params': params or None, 'results': []}
     for num, iv in zip(target_nums, ivs):
         target = next(b for b in bundle['blocks'] if b['num'] == num)
         aad = rc.external_aad(bundle, sec_blk, target, asb)
@@ -197,15 +201,33 @@ def alter(bundle, alteration, sec_type=11):
         out = edit_asb(out, sec_type, lambda asb: asb.__setitem__('src', ['dtn', '//other-source/']))
     elif kind == 'sec-scope':
         def func(asb):
-            for prm in asb['params']:
+            for prm in asb['params'] or []:
                 if prm[0] == 5:
                     scope = dict(prm[1])
                     key = sorted(scope)[alteration[1] % len(scope)]
                     scope[key] ^= 0x02 if key not in (0, -2) else 0x01
                     prm[1] = scope
         out = edit_asb(out, sec_type, func)
+    elif kind == 'sec-scope-retype':
+        # the AAD-scope parameter turned into a parameter of an unassigned type: the default scope applies
+        def func(asb):
+            for prm in asb['params'] or []:
+                if prm[0] == 5:
+                    prm[0] = 7
+        out = edit_asb(out, sec_type, func)
+    elif kind == 'sec-scope-drop':
+        def func(asb):
+            if asb['params']:
+                asb['params'] = [prm for prm in asb['params'] if prm[0] != 5]
+                if not asb['params']:
+                    asb['params'] = None
+                    asb['flags'] &= ~1
+        out = edit_asb(out, sec_type, func)
     elif kind == 'sec-addl-protected':
         def func(asb):
+            if asb['params'] is None:
+                asb['params'] = []
+                asb['flags'] |= 1
             for prm in asb['params']:
                 if prm[0] == 3:
                     prm[1] = bytes(prm[1]) + b'\x00' if not prm[1] else bytes([prm[1][0] ^ 1]) + bytes(prm[1][1:])
